@@ -538,18 +538,38 @@ def gm_two_fit():
             return {'columns': leaf(list(m.columns)), 'unis': leaf([type(u).__name__ for u in m.univariates]),
                     'fitted': leaf(bool(m.fitted)), 'corr_labels': leaf(list(m.correlation.index) + list(m.correlation.columns)),
                     'corr_shape': leaf(list(m.correlation.shape))}
-        with gm.gm_patches(rng=rng), patched(pd.DataFrame, corr=lambda self, *a, **k: cs(self, *a, **k)):
+        mvn = gm.MVNRecorder()
+        q = pd.DataFrame(objarr([[sym('q0'), sym('q1')]]), columns=['c', 'a'])
+        with gm.gm_patches(rng=rng, mvn=mvn), patched(pd.DataFrame, corr=lambda self, *a, **k: cs(self, *a, **k)):
             m1 = GaussianMultivariate(distribution=gm.StubDist)
             m1.fit(A)
+            m1.probability_density(q)            # queries between the two fits must not leave anything behind
+            m1.cumulative_distribution(q)
             m1.fit(B)
             n1 = len(gm.StubDist.FITS)
             m2 = GaussianMultivariate(distribution=gm.StubDist)
             m2.fit(B)
+            k0 = len(mvn.calls)
+            m1.probability_density(q)
+            m1.cumulative_distribution(q)
+            k1 = len(mvn.calls)
+            m2.probability_density(q)
+            m2.cumulative_distribution(q)
+            c1_, c2_ = mvn.calls[k0:k1], mvn.calls[k1:]
+
+            def callsig(cs_):
+                out = []
+                for (kind, x, a_, kw_) in cs_:
+                    cov = kw_.get('cov', a_[-1] if a_ else None)
+                    out.append((kind, list(np.asarray(x, dtype=object).flat), list(np.asarray(getattr(cov, 'to_numpy', lambda: cov)(), dtype=object).flat)))
+                return out
             fits = gm.StubDist.FITS
             ok_fit = all(tz(x).eq(tz(y)) for f1, f2 in zip(fits[n1 - 2:n1], fits[n1:]) for x, y in zip(f1[2], f2[2]))
             s1, s2 = st(m1), st(m2)
             s1['marginals_fitted_on_B'] = leaf(ok_fit)
             s2['marginals_fitted_on_B'] = leaf(True)
+            s1['density_queries'] = leaf(callsig(c1_))
+            s2['density_queries'] = leaf(callsig(c2_))
         return s1, s2
     paths, ex, _ = explore(fn, max_paths=3000, tlimit=120)
     fails = []
